@@ -118,8 +118,8 @@ def r4(ctx):
     flds = sorted(S(b.call_args(s)[0]) for s in calls)
     ctx.check('is_within|fields', flds == ['self.backward', 'self.forward'], 'is_within tests %s' % flds, sample=flds)
     cls = P.closures_of(b)
-    forms = sorted(v for c in cls for _, v in ret_assigns(c))
-    ctx.check('is_within|comparisons', forms == ['(duration < v)', '(duration > NtpDuration::neg(v))'], 'comparisons are %s' % forms, sample=forms)
+    forms = sorted(canon_cmp_str(v) for c in cls for _, v in ret_assigns(c))
+    ctx.check('is_within|comparisons', forms == ['(NtpDuration::neg(v) < duration)', '(duration < v)'], 'comparisons are %s' % forms, sample=forms)
     # conjunction: result true requires both
     for s, v in ret_assigns(b):
         if v == '0':
@@ -133,8 +133,8 @@ def r4(ctx):
         clo = S(b.call_args(s)[1])
         for c in cls:
             if c.id.split('::', 1)[1] in clo:
-                pairing[fld] = [v for _, v in ret_assigns(c)]
-    ctx.check('is_within|pairing', pairing == {'self.forward': ['(duration < v)'], 'self.backward': ['(duration > NtpDuration::neg(v))']},
+                pairing[fld] = [canon_cmp_str(v) for _, v in ret_assigns(c)]
+    ctx.check('is_within|pairing', pairing == {'self.forward': ['(duration < v)'], 'self.backward': ['(NtpDuration::neg(v) < duration)']},
               'bound/comparison pairing is %s' % pairing, sample=pairing)
 
 
